@@ -130,8 +130,8 @@ def fit_twin_case(M, m, n, kkind):
     return goals
 
 
-def _rng_setup(M, cat):
-    A, m, n, lb, ub, t, base = c06._setup(M, cat, True)
+def _rng_setup(M, cat, int_bounds=None):
+    A, m, n, lb, ub, t, base = c06._setup(M, cat, True, int_bounds=int_bounds)
     x0 = [lb[j] + t[j] * (ub[j] - lb[j]) for j in range(n)]
     Arows = np.asarray(A)
     b = np.array([fs._sum([Arows[i, j] * x0[j] for j in range(n)]) for i in range(m)], dtype=object if M.symbolic else float)
@@ -143,9 +143,9 @@ def _k(M, v):
     return symnp.const(v) if M.symbolic else float(v)
 
 
-def range_twin_case(M, cat, s, c):
+def range_twin_case(M, cat, s, c, int_bounds=None):
     from dreye.api.convex import range_of_solutions
-    A, m, n, lb, ub, base, btot = _rng_setup(M, cat)
+    A, m, n, lb, ub, base, btot = _rng_setup(M, cat, int_bounds)
     s_, c_ = _k(M, R(s)), _k(M, R(c))
     c06._Gate.answer = True
     mins, maxs = range_of_solutions(btot, A, lb, ub, baseline=base)
@@ -188,6 +188,11 @@ def cases(tier, seed):
     for (s, c) in pairs[:4] + pairs[4:6]:
         add(f"spaced twins 2x3-rand2 s={s} c={c} n=3", "spaced_twin_case", cat="2x3-rand2", s=s, c=c, nsp=3)
     add("range twins 2x3-proportional s=1/100 c=1/100", "range_twin_case", cat="2x3-proportional", s="1/100", c="1/100")
+    # the original system has integer-typed bounds (as users type them), the twin's are real after the division by s
+    add("range twins 2x3-rand1 integer-typed bounds [0,0,0]..[8,8,8] s=8 c=4", "range_twin_case", cat="2x3-rand1", s="8", c="4", int_bounds=([0, 0, 0, 0], [8, 8, 8, 8]),
+        opts=dict(float_strict=True, n_validate=3))
+    add("range twins 2x3-rand2 integer-typed bounds [1,0,2]..[4,3,5] s=1/2 c=3", "range_twin_case", cat="2x3-rand2", s="1/2", c="3", int_bounds=([1, 0, 2, 0], [4, 3, 5, 3]),
+        opts=dict(float_strict=True, n_validate=3))
     if big:
         add("range twins 3x4-rand1 s=1/100 c=100", "range_twin_case", cat="3x4-rand1", s="1/100", c="100", opts=dict(max_paths=20000))
     return C
